@@ -2,8 +2,11 @@
 """Self-test of the checker: apply single-site source mutants to a scratch copy of /repo and
 confirm that the expected obligation fires (and that the unchanged copy is silent).
 
-usage: run_mutants.py [-j N] [-k idsubstr] [--keep]
-Nothing under /repo or /verif is modified; scratch copies live under $TMPDIR/kvmut.* and are removed.
+usage: run_mutants.py [-j N] [-k idsubstr] [--prop Cnn] [--sensitivity evidence.json] [--keep]
+--prop Cnn            only the mutants (and the seeded changes under /verif/seeded/Cnn*) of that property
+--sensitivity FILE    merge the outcome into coverage.sensitivity of that evidence file (variants that apply but are not
+                      detected, and controls that raise an alarm, are listed there and printed as a warning)
+Nothing under /repo or /verif (other than that evidence file) is modified; scratch copies live under $TMPDIR/kvmut.* and are removed.
 """
 import argparse, json, os, re, shutil, subprocess, sys, tempfile, concurrent.futures as cf
 
@@ -35,7 +38,11 @@ def run_one(m, keep=False):
     dst = os.path.join(tmp, "repo")
     try:
         vd = make_copy(dst)
-        for e in m["edits"]:
+        if m.get("patch"):
+            r = subprocess.run(["patch", "-p1", "-s", "-f", "-i", m["patch"]], cwd=dst, capture_output=True, text=True)
+            if r.returncode != 0:
+                return dict(id=m["id"], verdict="N/A", detail="seeded patch no longer applies")
+        for e in m.get("edits", []):
             p = os.path.join(dst, e["file"])
             s = open(p).read()
             if e.get("regex"):
@@ -69,14 +76,37 @@ def run_one(m, keep=False):
             shutil.rmtree(tmp, ignore_errors=True)
 
 
+def seeded(prop):
+    """the confirmed sub-agent changes kept under /verif/seeded/<prop><variant>/ as extra positive controls"""
+    import glob
+    out = []
+    for d in sorted(glob.glob(os.path.join(VERIF, "seeded", prop + "*"))):
+        mf = os.path.join(d, "meta.json")
+        if not os.path.exists(mf) or not os.path.exists(os.path.join(d, "patch.diff")):
+            continue
+        meta = json.load(open(mf))
+        exp = meta.get("caught_by") or []
+        if not exp:
+            continue
+        out.append(dict(id="S" + os.path.basename(d), props=[prop], tier="quick", patch=os.path.join(d, "patch.diff"), expect=exp,
+                        what="seeded: " + meta.get("summary", "")[:100]))
+    return out
+
+
 def main():
     ap = argparse.ArgumentParser()
     ap.add_argument("-j", type=int, default=6)
     ap.add_argument("-k", default="")
+    ap.add_argument("--prop", default="")
+    ap.add_argument("--sensitivity", default="")
     ap.add_argument("--keep", action="store_true")
     a = ap.parse_args()
-    subprocess.run([os.path.join(VERIF, "run.sh"), "build"], check=True)
-    ms = [m for m in MUTANTS if a.k in m["id"] or a.k in ",".join(m["props"])]
+    if not a.sensitivity:
+        subprocess.run([os.path.join(VERIF, "run.sh"), "build"], check=True)
+    if a.prop:
+        ms = [m for m in MUTANTS if m["props"] == [a.prop]] + seeded(a.prop)
+    else:
+        ms = [m for m in MUTANTS if a.k in m["id"] or a.k in ",".join(m["props"])]
     res = []
     with cf.ThreadPoolExecutor(a.j) as ex:
         for r in ex.map(lambda m: run_one(m, a.keep), ms):
@@ -87,6 +117,22 @@ def main():
     other = sum(r["verdict"] == "CAUGHT-OTHER" for r in res)
     print(f"\n{caught}/{tot} caught by the expected obligation, {other} by another, "
           f'{sum(r["verdict"]=="MISSED" for r in res)} missed, {sum(r["verdict"] in ("N/A","INVALID") for r in res)} n/a or invalid')
+    if a.sensitivity:
+        bad = [r for r in res if r["verdict"] in ("MISSED", "FALSE-ALARM")]
+        ev = json.load(open(a.sensitivity))
+        ev["coverage"]["sensitivity"] = dict(
+            what="every rule instance is exercised both ways: the analysis is re-run on single-site variants of the current tree (hand-written mutants and the confirmed seeded changes of this property, applied to a scratch copy); a variant that breaks the rule's condition must be reported by that rule, a behaviour-preserving control must stay silent",
+            variants=tot, detected=sum(r["verdict"] == "CAUGHT" for r in res), detected_by_other_rule=other,
+            controls_silent=sum(r["verdict"] == "SILENT-OK" for r in res),
+            not_applicable=[r["id"] for r in res if r["verdict"] in ("N/A", "INVALID")],
+            undetected=[dict(id=r["id"], what=r.get("what", "")) for r in bad],
+            cases=[dict(id=r["id"], verdict=r["verdict"], fired=r.get("fired", []), what=r.get("what", "")) for r in res])
+        json.dump(ev, open(a.sensitivity, "w"), indent=1)
+        if bad:
+            # a lost sensitivity is a defect of the checker, not a violation of the property on this tree: it is recorded in
+            # the evidence and printed, but it does not make the property's check fail
+            print("WARNING sensitivity lost for: " + ", ".join(r["id"] for r in bad))
+        sys.exit(0)
     json.dump(res, open(os.path.join(HERE, "last_result.json"), "w"), indent=1)
     sys.exit(0)
 
